@@ -206,6 +206,7 @@ pub fn evaluate(spec: &Spec, completed: bool) -> Vec<Violation> {
             "c18_stats" => control::c18_stats(&mut cx),
             "c09_auth" => security::c09_auth(&mut cx),
             "c10_cancel" => security::c10_cancel(&mut cx),
+            "c11_hostile" => security::c11_hostile(&mut cx),
             "c07_bans" => routing::c07_bans(&mut cx),
             "c07_expiry" => routing::c07_expiry(&mut cx),
             other => {
